@@ -111,6 +111,40 @@ def prop_c19rt(cname, d):
             return f"FAIL private key {form}: {type(e).__name__} at {where(e)}"
         if back.privkey.secret_multiplier != d or back.verifying_key != vk or back.curve != curve:
             return f"FAIL private key changed by {form}"
+    # the same long-lived objects, forms in a random order with repeats, a precomputation and decoded copies in between:
+    # every encoding equals that of a fresh object for the same key (no memory of earlier calls)
+    import random
+    rng = random.Random(d)
+    objs_v = [vk, keys.VerifyingKey.from_string(vk.to_string("compressed"), curve)]
+    objs_s = [sk, keys.SigningKey.from_string(sk.to_string(), curve)]
+    log = []
+    for _ in range(14):
+        if rng.random() < 0.15:
+            try:
+                rng.choice(objs_v).precompute(lazy=rng.random() < 0.5)
+            except Exception as e:
+                return f"FAIL precompute after {log}: {type(e).__name__} at {where(e)}"
+            log.append("precompute")
+            continue
+        try:
+            if rng.random() < 0.6:
+                form = rng.choice(PUB_FORMS)
+                log.append(form)
+                got = enc_pub(rng.choice(objs_v), form)
+                want = enc_pub(keys.SigningKey.from_secret_exponent(d, curve).verifying_key, form)
+                if rng.random() < 0.3:
+                    objs_v.append(dec_pub(got, form, curve))
+            else:
+                form = rng.choice(PRIV_FORMS)
+                log.append(form)
+                got = enc_priv(rng.choice(objs_s), form)
+                want = enc_priv(keys.SigningKey.from_secret_exponent(d, curve), form)
+                if rng.random() < 0.3:
+                    objs_s.append(dec_priv(got, form, curve))
+        except Exception as e:
+            return f"FAIL history {log}: {type(e).__name__} at {where(e)}"
+        if got != want:
+            return f"FAIL history {log}: the last encoding differs from that of a fresh key object ({got.hex()} / {want.hex()})"
     return "ok"
 
 
